@@ -29,11 +29,11 @@ structure Conclusion where
   t : Option String
 deriving DecidableEq, Repr
 
+/-- terms of the variable of the conclusion under construction (`proposition.variable.terms`) -/
 def lastTerms (e : EngineInfo) : List Conclusion → List String
   | [] => []
-  | cs => match cs.getLast? with
-    | some c => ((e.findOut c.v).map (·.terms)).getD []
-    | none => []
+  | [c] => ((e.findOut c.v).map (·.terms)).getD []
+  | _ :: cs => lastTerms e cs
 
 /-- update the conclusion under construction (the last one) -/
 def updLast (f : Conclusion → Conclusion) : List Conclusion → List Conclusion
